@@ -161,6 +161,9 @@ func (p *ProjectRunner) runProcess(config *types.ProcessConfig) {
 		if err = p.waitIfNeeded(proc.procConf); err != nil {
 			log.Error().Msgf("Error: %s", err.Error())
 			log.Error().Msgf("Error: process %s won't run", proc.getName())
+			// a skipped process has ended too: its own dependents must still find it once it is
+			// no longer registered as running, or they would take it for not scheduled and start
+			p.addDoneProcess(proc)
 			proc.wontRun()
 			verif.Yield("proc:skipped")
 			p.onProcessSkipped(proc.procConf)
